@@ -99,13 +99,18 @@ func loadEntries(r *hk.Run) {
 }
 
 func genEntry(rng *hk.Rand) string {
-	switch k := rng.Intn(10); {
-	case k < 2:
+	switch k := rng.Intn(20); {
+	case k < 4:
 		return "do"
-	case k < 3:
+	case k < 6:
 		return "send"
 	}
-	return hk.Pick(rng, entryNames)
+	for { // methods of *Request three times as often as the package-level functions
+		n := hk.Pick(rng, entryNames)
+		if !strings.HasPrefix(n, "pkg.") || rng.Chance(33) {
+			return n
+		}
+	}
 }
 
 // what an entry point cannot carry: a package-level function creates its own request (nothing
